@@ -595,6 +595,113 @@ func racePass(procs, goroutines int) *core.Fail {
 	return nil
 }
 
+// ---- read-only methods must not write their receiver ----
+//
+// "Shared arguments are only read": goroutines that only call read-only
+// methods on a shared value do not write it by contract, so a method that
+// normalises or caches inside its receiver creates a race between them. The
+// scheduler cannot see writes to caller-owned memory; this sequential
+// enumeration can: the receiver (and argument) of every read-only method must
+// be bit-identical afterwards, for every representation.
+
+type roCase struct {
+	Type   string      `json:"type"`
+	Method string      `json:"method"`
+	Limbs  alpha.Limbs `json:"limbs,omitempty"`
+	Enc    core.Hex    `json:"enc,omitempty"`
+	Form   int         `json:"form,omitempty"`
+}
+
+var subReadOnly = core.NewSub("C18/readonly-receiver", func(w *core.Worker, c roCase) *core.Fail {
+	switch c.Type {
+	case "Element":
+		e := alpha.ElemFromLimbs(c.Limbs)
+		o := alpha.ElemFromLimbs(c.Limbs)
+		switch c.Method {
+		case "Equal":
+			e.Equal(&o)
+		case "Bytes":
+			e.Bytes()
+		case "IsNegative":
+			e.IsNegative()
+		}
+		if alpha.LimbsOf(&e) != c.Limbs || alpha.LimbsOf(&o) != c.Limbs {
+			return core.Failf("field.Element.%s wrote to its receiver/argument: limbs %v became %v / %v (two goroutines reading one shared element would race)", c.Method, c.Limbs, alpha.LimbsOf(&e), alpha.LimbsOf(&o))
+		}
+	case "Scalar":
+		sc, err := new(edwards25519.Scalar).SetCanonicalBytes(c.Enc)
+		if err != nil {
+			return nil
+		}
+		o := *sc
+		raw := alpha.ScalarRaw(sc)
+		switch c.Method {
+		case "Equal":
+			sc.Equal(&o)
+		case "Bytes":
+			sc.Bytes()
+		}
+		if alpha.ScalarRaw(sc) != raw || alpha.ScalarRaw(&o) != raw {
+			return core.Failf("Scalar.%s wrote to its receiver/argument", c.Method)
+		}
+	case "Point":
+		pt, ok := ref.Decode(c.Enc)
+		if !ok {
+			return nil
+		}
+		p := alpha.MakePoint(pt, c.Form)
+		o := alpha.MakePoint(pt, (c.Form+3)%alpha.NumPointForms)
+		rp, ro := alpha.PointRaw(p), alpha.PointRaw(o)
+		switch c.Method {
+		case "Equal":
+			p.Equal(o)
+		case "Bytes":
+			p.Bytes()
+		case "BytesMontgomery":
+			p.BytesMontgomery()
+		case "ExtendedCoordinates":
+			p.ExtendedCoordinates()
+		}
+		if alpha.PointRaw(p) != rp || alpha.PointRaw(o) != ro {
+			return core.Failf("Point.%s wrote to its receiver/argument (point %s, form %d): two goroutines reading one shared point would race", c.Method, c.Enc, c.Form)
+		}
+	}
+	w.Distinct("readonly-cases", []byte(c.Type+c.Method))
+	return nil
+})
+
+func readOnlyCases() []roCase {
+	var out []roCase
+	for _, v := range alpha.FieldValues(false) {
+		for _, e := range alpha.ElemForms(v) {
+			for _, m := range []string{"Equal", "Bytes", "IsNegative"} {
+				out = append(out, roCase{Type: "Element", Method: m, Limbs: alpha.LimbsOf(&e)})
+			}
+		}
+	}
+	// sums with pending carries: Add(m, m) for m with all-ones limbs
+	for _, l := range []alpha.Limbs{{alpha.Mask51 + 18, alpha.Mask51, alpha.Mask51, alpha.Mask51, alpha.Mask51}, {alpha.Mask51 + 1, 0, 0, 0, 0}, {0, 0, 0, 0, alpha.Mask51 + 1}} {
+		for _, m := range []string{"Equal", "Bytes", "IsNegative"} {
+			out = append(out, roCase{Type: "Element", Method: m, Limbs: l})
+		}
+	}
+	for i, v := range alpha.Scalars(true) {
+		if i%4 == 0 {
+			b := ref.LE32(v)
+			out = append(out, roCase{Type: "Scalar", Method: "Equal", Enc: b[:]}, roCase{Type: "Scalar", Method: "Bytes", Enc: b[:]})
+		}
+	}
+	for _, np := range alpha.Points(true) {
+		e := ref.Encode(np.P)
+		for f := 0; f < alpha.NumPointForms; f++ {
+			for _, m := range []string{"Equal", "Bytes", "BytesMontgomery", "ExtendedCoordinates"} {
+				out = append(out, roCase{Type: "Point", Method: m, Enc: append([]byte{}, e[:]...), Form: f})
+			}
+		}
+	}
+	return out
+}
+
 func runC18(ctx *core.Ctx) {
 	ctx.Rule("stateless depth-first exploration of all schedules, up to a preemption bound, of 9 closed concurrent harnesses (2-3 threads, 1-4 calls each, all starting from a cold process image restored from a generated snapshot of every package-level variable) over the real library, instrumented at check time: sync/sync.atomic replaced by a shim whose operations are scheduling points and happens-before edges, plus a scheduling point and vector-clock race check before every statement that mentions a mutable package-level variable (classification recomputed from the tree). Oracle on every complete schedule: results equal the sequential ones (and the math/big model), no happens-before race, no deadlock, per-variable write counts equal the sequential execution's (constructed exactly once). states = scheduling points visited, transitions = thread steps executed, schedules = complete executions")
 	ctx.Assume("scheduling points at synchronisation operations and at mentions of mutable package-level variables suffice (accesses through escaped pointers are covered by the value oracle and the sampled -race pass)",
@@ -602,6 +709,9 @@ func runC18(ctx *core.Ctx) {
 		"the Go memory model is approximated by sequential consistency plus vector-clock happens-before")
 	setupValues()
 	mo := modelOuts(nil)
+	if os.Getenv("VERIF_C18_SHARD") == "" {
+		subReadOnly.RunList(ctx, readOnlyCases())
+	}
 	var totalSched, totalPoints, totalSteps int64
 	report := map[string]any{}
 	scs := scenarios()
